@@ -303,7 +303,7 @@ class C18(Prop):
             return extra
         # to_id / to_sig through a one-cell MSM4-type message of each constellation
         from msggen import Gen
-        g = Gen(ctx.root)
+        g = Gen(ctx.root, ctx.repo)
         r = ctx.rng("onecell")
         fails = 0
         ops, meta = [], []
